@@ -137,6 +137,29 @@ def run_case(case):
                                                                                          sizes=eff, config=name)))
         else:
             items.append(dict(status="held", key=key, nontrivial=nontriv))
+    # ---- inadmissible user sizes (below the minimum of some reader) must be refused, not silently accepted
+    per_reader = {k: list(v) for k, v in G_auto._buffer_sizes.items()}
+    cand = [k for k, v in per_reader.items() if len(v) and max(v) >= 2]
+    if cand:
+        k_bad = rnd.choice(cand)
+        small = int(rnd.randint(1, max(per_reader[k_bad]) - 1))
+        counters["inadmissible_sizes_tried"] += 1
+        try:
+            G_bad = C.build_compiled(nodes, sup, cg, mode=mode, prune=prune, buffer_sizes={k_bad: small})
+            accepted = True
+        except (C.CompileError, AssertionError):
+            accepted = False
+        except C.Rejected:
+            accepted = False
+        if accepted:
+            eff = {k: (max(v) if len(v) else 1) for k, v in G_bad._buffer_sizes.items()}
+            st = Counter()
+            Vb, _ = static_replay(T, eff, E, P, st)
+            items.append(dict(status="violated", key=f"{dg}/{mode}/{prune}/inadmissible-accepted", nontrivial=True,
+                              witness=dict(mechanism="inadmissible_buffer_size_accepted", producer=k_bad, size=small, per_reader_minimum=per_reader[k_bad],
+                                           replay_violations=Vb[:2], spec=spec, mode=mode, prune=prune)))
+        else:
+            items.append(dict(status="held", key=f"{dg}/{mode}/{prune}/inadmissible-refused", nontrivial=True))
     # ---- executed check with one chosen configuration
     name, user, pad = rnd.choice(configs)
     kw = {}
